@@ -11,6 +11,7 @@ let () =
    | "load" -> R_load.run path
    | "lin" -> R_lin.run path
    | "sched" -> R_sched.run path
+   | "stripe" -> R_stripe.run path
    | _ -> prerr_endline ("unknown engine " ^ engine); exit 2);
   Util.print_stats ();
   Printf.printf "RESULT mismatches=%d propfails=%d\n" !Util.mismatches !Util.propfails
